@@ -141,3 +141,91 @@ Definition op_mode_of (o : operand) : op_mode :=
 
 (* an instruction as created: code number (any N: out-of-range codes are a case) and operands *)
 Record insn : Type := { i_code : opcode; i_ops : list operand }.
+
+(* ------------------------------------------------------------------ function context *)
+
+Record reg_desc : Type := {
+  rd_reg : N; rd_name : name; rd_type : mir_type; rd_hard : option name
+}.
+
+Record func_ctx : Type := {
+  f_vararg : bool;
+  f_res : list mir_type;
+  f_regs : list reg_desc;      (* most recent first *)
+  f_nvars : N;                 (* VARR_LENGTH (func->vars) *)
+  f_nglobals : N               (* VARR_LENGTH (func->global_vars) *)
+}.
+
+Definition find_rd_by_reg (fc : func_ctx) (r : N) : option reg_desc :=
+  find (fun d => N.eqb (rd_reg d) r) (f_regs fc).
+
+Definition find_rd_by_name (fc : func_ctx) (n : name) : option reg_desc :=
+  find (fun d => name_eqb (rd_name d) n) (f_regs fc).
+
+(* ------------------------------------------------------------------ operand shapes *)
+(* The finite abstraction of an operand in a function context: its API kind plus the outcome of
+   the register look-ups (declared with which type / undeclared) for a register operand and for
+   the base and index registers of a memory operand, and the sign of the displacement.  Both the
+   checker model and the documentation-derived rules are functions of the shape. *)
+
+Inductive rclass : Set := RC_undecl | RC (t : mir_type).
+Inductive bclass : Set := BC_none | BC_undecl | BC_reg (t : mir_type).
+Inductive imm : Set := IInt | IUint | IFloat | IDouble | ILdouble.
+
+Inductive shape : Set :=
+| SReg (rc : rclass)
+| SImm (k : imm)
+| SMem (t : mir_type) (neg_disp : bool) (b x : bclass)
+| SLabel
+| SRef (k : item_kind)
+| SStr.
+
+Definition rclass_of (fc : func_ctx) (r : N) : rclass :=
+  match find_rd_by_reg fc r with
+  | Some d => RC (rd_type d)
+  | None => RC_undecl
+  end.
+
+Definition bclass_of (fc : func_ctx) (r : N) : bclass :=
+  if N.eqb r 0 then BC_none
+  else match find_rd_by_reg fc r with
+       | Some d => BC_reg (rd_type d)
+       | None => BC_undecl
+       end.
+
+Definition shape_of (fc : func_ctx) (o : operand) : shape :=
+  match o with
+  | OReg r => SReg (rclass_of fc r)
+  | OInt _ => SImm IInt
+  | OUint _ => SImm IUint
+  | OFloat => SImm IFloat
+  | ODouble => SImm IDouble
+  | OLdouble => SImm ILdouble
+  | OMem t disp b x => SMem t (disp <? 0)%Z (bclass_of fc b) (bclass_of fc x)
+  | OLabel => SLabel
+  | ORef k _ => SRef k
+  | OStr => SStr
+  end.
+
+Definition shape_mode (s : shape) : op_mode :=
+  match s with
+  | SReg _ => OP_REG
+  | SImm IInt => OP_INT | SImm IUint => OP_UINT | SImm IFloat => OP_FLOAT
+  | SImm IDouble => OP_DOUBLE | SImm ILdouble => OP_LDOUBLE
+  | SMem _ _ _ _ => OP_MEM | SLabel => OP_LABEL | SRef _ => OP_REF | SStr => OP_STR
+  end.
+
+(* register types the API can declare (new_func_reg: I64, F, D, LD; parameters likewise) *)
+Definition reg_type_ok (t : mir_type) : bool :=
+  match t with T_I64 | T_F | T_D | T_LD => true | _ => false end.
+
+Definition fc_wf (fc : func_ctx) : Prop := forall d, In d (f_regs fc) -> reg_type_ok (rd_type d) = true.
+
+Definition rclass_wf (rc : rclass) : bool := match rc with RC_undecl => true | RC t => reg_type_ok t end.
+Definition bclass_wf (b : bclass) : bool := match b with BC_reg t => reg_type_ok t | _ => true end.
+Definition shape_wf (s : shape) : bool :=
+  match s with
+  | SReg rc => rclass_wf rc
+  | SMem _ _ b x => bclass_wf b && bclass_wf x
+  | _ => true
+  end.
